@@ -440,6 +440,15 @@ fn api_forms_v(
     b.set_direction(rustybuzz::Direction::RightToLeft);
     b.set_script(script);
     b.set_cluster_level(rustybuzz::BufferClusterLevel::Characters);
+    // paragraph-boundary flags in every combination: they decide about the dotted circle only (switched off here), never
+    // about whether the text contexts take part in joining
+    let fl = [
+        rustybuzz::BufferFlags::empty(),
+        rustybuzz::BufferFlags::BEGINNING_OF_TEXT,
+        rustybuzz::BufferFlags::END_OF_TEXT,
+        rustybuzz::BufferFlags::BEGINNING_OF_TEXT | rustybuzz::BufferFlags::END_OF_TEXT,
+    ][(text.len() + pre.len() + 3 * post.len() + variant as usize) % 4];
+    b.set_flags(fl | rustybuzz::BufferFlags::DO_NOT_INSERT_DOTTED_CIRCLE);
     let feats: Vec<rustybuzz::Feature> = if variant == 2 {
         let sets: [&[&str]; 5] = [&["kern=256"], &["liga=300", "calt=256"], &["dlig=65536", "-kern"], &["kern=511", "smcp=1000"], &["ccmp=257", "rlig=256", "mark=4096"]];
         sets[(text.len() + pre.len() * 2 + post.len()) % 5].iter().filter_map(|f| rustybuzz::Feature::from_str(f).ok()).collect()
